@@ -1,9 +1,10 @@
 (* C19 — joins implement the documented relational semantics.
-   Property theorems only: each is closed by [exact] of a lemma proved in Proofs/JoinProofs.v.
+   Property theorems only: each is closed by [exact] of a lemma proved in Proofs/Join*Proofs.v.
    [join_impl] (Model/JoinImpl.v) mirrors evaluators/join.rs; [join_spec] (Model/JoinSpec.v) is the
    relational specification written from the documentation of Graph::join /
    Graph::join_with_column_masks; [masked] selects the variant with per-column masks. *)
-From CC Require Import Base.Prelude Model.JoinTable Model.JoinImpl Model.JoinSpec Proofs.JoinProofs.
+From CC Require Import Base.Prelude Model.JoinTable Model.JoinImpl Model.JoinSpec Proofs.JoinProofs
+  Proofs.JoinUnionProofs.
 
 (* The full statement: for well-formed tables whose rows that take part in matching have unique
    keys, the mirrored algorithm returns exactly the specified table, for the four join types and
@@ -23,17 +24,25 @@ Definition C19_full_is_union_of_left : Prop :=
     join_spec masked JFull a b keys
     = join_spec masked JUnion a (join_spec masked JLeft b a (swap_keys keys)) keys.
 
-(* Proved part: inner and left joins (plain and masked variants, any number of key columns,
-   any table sizes).  Uniqueness is only needed for the table that is searched. *)
+(* Proved part: inner, left and union joins (plain and masked variants, any number of key columns,
+   any table sizes).  Uniqueness is only needed for the table that is searched; the union join
+   needs none (it only asks whether a key of the first table occurs in the second). *)
 Theorem C19_join_impl_spec_partial : forall masked jt a b keys,
-  jt = JInner \/ jt = JLeft ->
+  jt = JInner \/ jt = JLeft \/ jt = JUnion ->
   wf_join masked a b keys -> unique_live_keys masked b (map snd keys) ->
   join_impl jt masked a b keys = Ok (join_spec masked jt a b keys).
 Proof.
-  intros masked jt a b keys [-> | ->].
+  intros masked jt a b keys [-> | [-> | ->]].
   - exact (inner_impl_spec masked a b keys).
   - exact (left_impl_spec masked a b keys).
+  - exact (fun WJ _ => union_impl_spec masked a b keys WJ).
 Qed.
+
+(* The union join alone, at full strength: no uniqueness hypothesis *)
+Theorem C19_union_impl_spec : forall masked a b keys,
+  wf_join masked a b keys ->
+  join_impl JUnion masked a b keys = Ok (join_spec masked JUnion a b keys).
+Proof. exact union_impl_spec. Qed.
 
 (* Row counts per join type (type_inference.rs:340-343), for every column of the specified table *)
 Theorem C19_row_counts : forall masked jt a b keys,
@@ -84,6 +93,7 @@ Example C19_example_values :
 Proof. split; vm_compute; reflexivity. Qed.
 
 Print Assumptions C19_join_impl_spec_partial.
+Print Assumptions C19_union_impl_spec.
 Print Assumptions C19_row_counts.
 Print Assumptions C19_column_order.
 Print Assumptions C19_inner_rows_are_left_rows.
